@@ -145,6 +145,12 @@ def classify(hr, checks):
             if prev is None or rank.get(st, 2) > rank.get(prev, 2):
                 hr.named[oid] = st
             continue
+        if desc.startswith('NaN on ') or desc.startswith('arithmetic overflow on floating-point'):
+            # CBMC's optional IEEE checks: producing NaN/inf is defined behaviour in Rust, not a panic
+            hr.ignored_float_checks = getattr(hr, 'ignored_float_checks', 0) + 1
+            if st == 'FAILURE':
+                hr.ignored_float_failed = getattr(hr, 'ignored_float_failed', 0) + 1
+            continue
         hr.safety_checks += 1
         if st == 'FAILURE':
             hr.checks_failed += 1
